@@ -44,6 +44,9 @@ PROPERTIES = {
                 "runs of 1..150, reads larger than the scanner buffer) and the real Transmitter with a fake net.Conn.",
         "note": _NOTE + "bufio.Scanner is modelled, not verified (oracle, DESIGN.md section 3): buffer shifting/doubling is "
                         "abstracted as re-segmentation of reads, a reader violating 0 <= n <= len(p) is not modelled. "
+                        "TransmitFrame discards the byte count returned by Write: model = code, so a Write answering "
+                        "(n < 16, nil) counts as a success and is never followed by a second Write "
+                        "(C07_transmit_ignores_write_count). "
                         "Segmentations are exhaustive only for streams up to 17 bytes (20 in the thorough tier).",
         "technique": "Coq proof (induction over read results) about a Gallina model + differential correspondence under "
                      "scripted segmentations and fault injection",
@@ -55,12 +58,17 @@ RULES = {
     "C06": "V/T lines: every standard ID 0..0x7ff x {std,ext} x {data,remote} x length 0..8 (exhaustive), extended and "
            "out-of-range IDs (26 boundaries, 32 one-hot, 29 one-cold, seeded random) x flags x lengths, lengths 9..255, payload "
            "basis; R lines: 8 flag combinations x ID patterns x dlc {0..9,15,16,255} x payloads (zero, ones, ramp, random; "
-           "random padding on every other) + payload basis + seeded random blocks; distinct by line hash; every case counts "
+           "random padding on every other) + payload basis + seeded random blocks; C lines: 2..8 goroutines transmitting "
+           "distinct valid frames on ONE shared Transmitter whose conn holds every Write until all are inside Write, the "
+           "multiset of written blocks compared with the frames' layouts (10 rounds quick, 100 thorough; normal build, no "
+           "-race); distinct by line hash; every case counts "
            "as non-trivial (each exercises a different ID/flag/length/byte pattern)",
     "C07": "S lines = one scripted connection each: const chunk sizes 1..64 x 112 stream lengths; all cut sets for n <= 17 "
            "(20 thorough); random partitions with empty reads; error without/with data at every read index of 7 base "
            "segmentations per stream; empty-read runs {1,2,50,99,100,101,102,150} at 6 positions; long streams read through "
-           "the 4096-byte buffer; X lines = sequences of 1..5 TransmitFrame calls over all 8 answer combinations. "
+           "the 4096-byte buffer; X lines = sequences of 1..5 TransmitFrame calls; all 40 answer combinations (ctx with/without "
+           "deadline x SetWriteDeadline ok/failed x Write answering n in {0,1,8,15,16} x {nil, error}) exhaustively as "
+           "single calls and as first call of a sequence, then random sequences. "
            "non-trivial = at least one complete frame or a non-nil terminating error; distinct by line hash",
 }
 
